@@ -370,6 +370,8 @@ Plan generate(Rng &rng, const Opts &opts, uint64_t)
                 p.steps.push_back(mk(1, "E_ADDCOMP", {long(rng.below(8)), long(rng.below(4))}));
             } else if (e < 81) {
                 p.steps.push_back(mk(1, "E_ADDEQ", {long(rng.below(16)), long(rng.below(16)), long(rng.below(4))}));
+            } else if (e < 85) {
+                p.steps.push_back(mk(1, "E_CUTEQ", {long(rng.below(16)), long(rng.below(3))}));
             } else if (e < 88) {
                 p.steps.push_back(mk(1, "E_REMOVE", {long(rng.below(3)), long(rng.below(8))}));
             } else if (e < 94) {
@@ -415,6 +417,57 @@ bool checkLookups(Ctx &ctx, World &w, long salt)
     auto items = collect(w.model);
     auto present = allIds(items);
     std::string tag = staleTag(w);
+    // The first question after whatever happened before decides whether the index is refreshed in time: it is not always
+    // ids() - any lookup may come first.
+    if (!present.empty() && salt % 5 != 0) {
+        std::set<std::string> distinct(present.begin(), present.end());
+        auto it0 = distinct.begin();
+        std::advance(it0, long(size_t(salt / 5) % distinct.size()));
+        const std::string id0 = *it0;
+        size_t n0 = present.count(id0);
+        ctx.count("annot_first_question_is_not_ids");
+        switch (salt % 5) {
+        case 1: {
+            auto found = w.annotator->items(id0);
+            bool carried = true;
+            for (auto &f : found) {
+                bool hit = false;
+                for (auto &i : items) {
+                    hit = hit || (i.id == id0 && sameObject(f, i));
+                }
+                carried = carried && hit;
+            }
+            if (found.size() != n0 || !carried) {
+                ctx.violate("C13", "items-disagree-with-traversal", tag + ",first-question", "items('" + id0 + "') asked first has " + str(found.size()) + " entries" + (carried ? "" : ", not all of them carrying that id") + "; the traversal finds " + str(n0));
+                return false;
+            }
+            break;
+        }
+        case 2:
+            if (w.annotator->itemCount(id0) != n0) {
+                ctx.violate("C13", "item-count-disagrees-with-traversal", tag + ",first-question", "itemCount('" + id0 + "') asked first = " + str(w.annotator->itemCount(id0)) + ", the traversal finds " + str(n0));
+                return false;
+            }
+            break;
+        case 3:
+            if (w.annotator->isUnique(id0) != (n0 == 1)) {
+                ctx.violate("C13", "is-unique-disagrees-with-traversal", tag + ",first-question", "isUnique('" + id0 + "') asked first disagrees with the traversal (" + str(n0) + " occurrences)");
+                return false;
+            }
+            break;
+        default: {
+            auto dups0 = w.annotator->duplicateIds();
+            size_t expectDups0 = 0;
+            for (auto &d : distinct) {
+                expectDups0 += present.count(d) > 1 ? 1 : 0;
+            }
+            if (dups0.size() != expectDups0) {
+                ctx.violate("C13", "duplicate-ids-disagree-with-traversal", tag + ",first-question", "duplicateIds() asked first returned " + str(dups0.size()) + " ids, the traversal finds " + str(expectDups0));
+                return false;
+            }
+        }
+        }
+    }
     // ids()
     auto ids = w.annotator->ids();
     checkLogger(ctx, w.annotator, "annotator", "ids", false);
@@ -774,6 +827,44 @@ void execute(const Plan &plan, Ctx &ctx)
                 ++w.editsSinceRefresh;
                 ctx.count("fault_editor_structural_edit");
                 ctx.ev("E_ADDEQ " + a->name() + " " + b->name());
+            } else if (s.op == "E_CUTEQ") {
+                // equivalences are cut: one of them, all of a variable's, or all of them followed by making the same
+                // equivalences again (which come back without identifiers)
+                std::vector<VariablePtr> vars;
+                for (auto &c : comps) {
+                    for (size_t i = 0; i < c->variableCount(); ++i) {
+                        if (c->variable(i)->equivalentVariableCount() > 0) {
+                            vars.push_back(c->variable(i));
+                        }
+                    }
+                }
+                if (vars.empty()) {
+                    continue;
+                }
+                auto a = vars[size_t(s.arg(0)) % vars.size()];
+                std::vector<VariablePtr> partners;
+                for (size_t i = 0; i < a->equivalentVariableCount(); ++i) {
+                    partners.push_back(a->equivalentVariable(i));
+                }
+                switch (((s.arg(1) % 3) + 3) % 3) {
+                case 0:
+                    Variable::removeEquivalence(a, partners[0]);
+                    break;
+                case 1:
+                    a->removeAllEquivalences();
+                    break;
+                default:
+                    a->removeAllEquivalences();
+                    for (auto &b : partners) {
+                        if (b != nullptr) {
+                            Variable::addEquivalence(a, b);
+                        }
+                    }
+                }
+                ++w.editsSinceRefresh;
+                ++w.idEditsSinceRefresh;
+                ctx.count("fault_editor_cuts_equivalences");
+                ctx.ev("E_CUTEQ " + a->name() + " mode " + str(s.arg(1) % 3));
             } else if (s.op == "E_REMOVE") {
                 if (comps.empty()) {
                     continue;
